@@ -259,12 +259,18 @@ pub fn gen_mode(rng: &mut Rng, spec: &WorldSpec, opts: &mut RunOpts, allow_named
 }
 
 pub fn gen_outs(rng: &mut Rng, tag: &str, max_steps: usize) -> Vec<OutStep> {
+    let mut v = gen_outs_plain(rng, tag, max_steps);
+    crate::props_log::close_one_stream_early(rng, &mut v);
+    v
+}
+
+fn gen_outs_plain(rng: &mut Rng, tag: &str, max_steps: usize) -> Vec<OutStep> {
     let k = rng.below(max_steps + 1);
     (0..k)
         .map(|i| {
             let fd = if rng.chance(60, 100) { 1 } else { 2 };
             let s = format!("{} fd{} line {}\n", tag, fd, i);
-            OutStep { fd, hex: hex(s.as_bytes()), pause_ms: 0 }
+            OutStep { fd, hex: hex(s.as_bytes()), pause_ms: 0, close: false }
         })
         .collect()
 }
